@@ -5,19 +5,23 @@
 // field, what an independent reference encoder emits"), so a byte difference on a concrete pack is a
 // failure of the property itself, reported with the pack as replay.  What is compared:
 //
-//   A  pack.ToBytesPack(p)                         = payload of the reference frame
-//      + the reference *decoder* run by the driver on the implementation's bytes recovers the fields
-//   B  io.DataOutputX.WriteHeader / WriteOneWayHeader around the payload = reference frame
-//   C  hash.Hash64Str(license)                     = reference hash64
-//   D  frames captured on a loopback socket from the public client API
-//      (oneway.GetOneWayTcpClient + Send, per-send license and client license) = reference frame
-//   F  concurrent encoders (concurrent.go, child process): several goroutines encode their own packs of
-//      each type at the same time (ToBytesPack and makeData on one shared client); every result must equal
-//      that pack's single-threaded reference bytes; a crash / race-detector abort is an outcome
-//   E  histories on ONE long-lived client (history.go): sends with the default license, per-send
-//      overrides (empty, one character, multi-byte), license changes between sends through the exported
-//      field and through ApplyConfig, packs with different project codes; every frame must be the
-//      reference frame for the license/pcode in effect for that send
+//	A  pack.ToBytesPack(p)                         = payload of the reference frame
+//	   + the reference *decoder* run by the driver on the implementation's bytes recovers the fields
+//	B  io.DataOutputX.WriteHeader / WriteOneWayHeader around the payload = reference frame
+//	C  hash.Hash64Str(license)                     = reference hash64
+//	D  frames captured on a loopback socket from the public client API
+//	   (oneway.GetOneWayTcpClient + Send, per-send license and client license) = reference frame
+//	G  re-send after mutation (mutate.go, dump.go): one object sent repeatedly, mutated between sends through
+//	   every public route; each send must be the model's encoding of the object's current public state
+//	H  fault injection (fault.go): the peer resets the connection k bytes into a frame; every connection's
+//	   stream must be whole frames (a truncated one only last on a dead connection), nothing twice
+//	F  concurrent encoders (concurrent.go, child process): several goroutines encode their own packs of
+//	   each type at the same time (ToBytesPack and makeData on one shared client); every result must equal
+//	   that pack's single-threaded reference bytes; a crash / race-detector abort is an outcome
+//	E  histories on ONE long-lived client (history.go): sends with the default license, per-send
+//	   overrides (empty, one character, multi-byte), license changes between sends through the exported
+//	   field and through ApplyConfig, packs with different project codes; every frame must be the
+//	   reference frame for the license/pcode in effect for that send
 //
 // On a difference the case is shrunk field by field (each field reset to its zero variant while the
 // difference persists); the fields that remain name the failing part in the key.
@@ -459,10 +463,22 @@ func main() {
 	socketPhase(env, rep, cases[:k], res[:k], genLicense(rng)+"#", false, "client-license")
 
 	// ---- E: histories of sends on one long-lived client (license changes between sends, per-send overrides)
+	tPh := time.Now()
+	lap := func(name string) { rep.Note("phase %s: %.1f s", name, time.Since(tPh).Seconds()); tPh = time.Now() }
 	historyPhase(env, rep, vh.NewRng(env.Seed*0x9E3779B9+0xC05))
+	lap("E histories")
+
+	// ---- G: the same object re-sent after mutations through every public route
+	mutationPhase(env, rep, vh.NewRng(env.Seed*0x2545F491+0x6D75))
+	lap("G re-send after mutation")
+
+	// ---- H: the peer resets the connection in the middle of a frame; the client reconnects
+	faultPhase(env, rep, vh.NewRng(env.Seed*0x7F4A7C15+0xFA17))
+	lap("H fault injection")
 
 	// ---- F: concurrent encoders (child process): every pack type + makeData from several goroutines at once
 	concurrentPhase(env, rep)
+	lap("F concurrent encoders")
 
 	rep.Note("phase A: %d packs (%d per type); phase D: %d + %d frames captured on loopback", len(cases), perType, nSock, k)
 	rep.Write(env.Out)
@@ -487,6 +503,18 @@ func replay(env *vh.Env, rep *vh.Report) {
 	}
 	if err := json.Unmarshal(raw, &rf); err != nil {
 		vh.Die("replay: %v", err)
+	}
+	if strings.HasPrefix(rf.Key, "OneWayTcpClient.fault") {
+		env.Seed, env.Thorough = rf.Seed, rf.Tier == "thorough"
+		rep.Rule = "replay of the fault-injection stage of the recorded seed"
+		faultPhase(env, rep, vh.NewRng(rf.Seed*0x7F4A7C15+0xFA17))
+		return
+	}
+	if strings.Contains(rf.Key, "resend-after-mutation") {
+		env.Seed, env.Thorough = rf.Seed, rf.Tier == "thorough"
+		rep.Rule = "replay of the re-send-after-mutation stage of the recorded seed"
+		mutationPhase(env, rep, vh.NewRng(rf.Seed*0x2545F491+0x6D75))
+		return
 	}
 	if strings.Contains(rf.Key, "under-concurrent-writers") {
 		env.Seed, env.Thorough = rf.Seed, rf.Tier == "thorough"
